@@ -116,7 +116,8 @@ def oracle(c, h=2.0 ** -10):
     for ci, con in enumerate(d.constraints):
       if 'jac' not in con:
         continue
-      J = np.array(con['jac'](x), dtype=float).reshape(-1)
+      # the same calling mode as observe(): a solver evaluates one exported list at many flows
+      J = np.array(core.maybe_stale(c, con['jac'], x), dtype=float).reshape(-1)
       if J.shape != (N,):
         return 'constraint %d: Jacobian has %d entries for %d flow variables' % (ci, J.size, N)
       f = lambda y: float(np.array(con['fun'](y)).reshape(-1)[0])
